@@ -61,6 +61,46 @@ async def _accept(tbl, idx, w, blo, bhi, held, via_device=False):
     return "refused" if refused and not sent else sent
 
 
+async def _pair(product, i, j, a, b, lo, hi, payload):
+    """Two parameters of a real ecoMAX reported with IDENTICAL (value, min, max) bytes in one response; the displayed form of raw b
+    is written to the first: what does the second display afterwards, and what after a second identical report?"""
+    import asyncio
+    from pyplumio.const import ProductType
+    from pyplumio.devices.ecomax import EcoMAX
+    from pyplumio.frames import responses as R
+    from pyplumio.structures import ecomax_parameters as EP
+    from pyplumio.structures.network_info import NetworkInfo
+    from harness import proto_impl as PI
+    dev = EcoMAX(asyncio.Queue(), network=NetworkInfo())
+
+    async def settle():
+        for _ in range(8):
+            await asyncio.sleep(0)
+    dev.handle_frame(R.UIDResponse(message=bytearray(PI.payload("responses/uid.json", {0: "EM350P2_uid", 1: "ecoMAX_850i_uid"}[product]))))
+    await settle()
+    dev.handle_frame(R.EcomaxParametersResponse(message=bytearray(payload)))
+    await settle()
+    table = EP.ECOMAX_PARAMETERS[ProductType(product)]
+    pi, pj = dev.data[table[i].name], dev.data[table[j].name]
+    before = [pi.value, pj.value]
+    src, *_ = param_impl.make_param(product, i, [b, 0, 65535], True, 0)
+    task = asyncio.ensure_future(pi.set(src.value, retries=1, timeout=1.0))
+    await settle()
+    other_now = pj.value
+    task.cancel()
+    try:
+        await task
+    except BaseException:  # noqa: BLE001
+        pass
+    # the controller reports the same block again (the write was lost): both parameters show the reported raw value again
+    dev.handle_frame(R.EcomaxParametersResponse(message=bytearray(payload)))
+    await settle()
+    for t in list(dev.tasks):
+        t.cancel()
+    await asyncio.gather(*dev.tasks, return_exceptions=True)
+    return other_now, dev.data[table[i].name].value, dev.data[table[j].name].value, before
+
+
 class C17(Prop):
     id = "C17"
     prop_file = "Props/C17.v"
@@ -103,9 +143,29 @@ class C17(Prop):
                     cases.append({"kind": "%s:%s" % (name, "scaled" if scaled else "plain"), "tbl": tbl, "idx": idx, "raw": raw,
                                   "lo": rng.choice([0, raw]), "hi": rng.choice([hi, raw]), "other": held_for(raw),
                                   "acc": [w, blo, bhi, held_for(w)], "via_device": rng.random() < 0.5})
+        # two parameters reported with identical bytes: writing one must not change what the other displays (nor what either
+        # displays for the same report later)
+        for product in (0, 1):
+            tab = t[param_impl.TABLES[product]]
+            nums = [k for k, d in enumerate(tab) if not d["switch"]]
+            for _ in range(25 if tier == "quick" else 400):
+                i, j = rng.sample(nums, 2)
+                if abs(i - j) > 60:
+                    continue
+                a, b = rng.sample(range(10, 60), 2)
+                cases.append({"kind": "pair:" + param_impl.TABLES[product], "tbl": product, "idx": i, "idx2": j, "raw": a, "raw2": b,
+                              "lo": 0, "hi": 100})
         return cases
 
     def run_impl(self, c):
+        if c["kind"].startswith("pair:"):
+            lo_i, hi_i = min(c["idx"], c["idx2"]), max(c["idx"], c["idx2"])
+            slots = [[[c["raw"], c["lo"], c["hi"]]] if k in (c["idx"], c["idx2"]) else [] for k in range(lo_i, hi_i + 1)]
+            from harness import model
+            payload = list(model.call("enc_ecomax_params", [0, lo_i, slots]))
+            other_now, first_later, other_later, before = vloop.run(_pair, c["tbl"], c["idx"], c["idx2"], c["raw"], c["raw2"], c["lo"], c["hi"], payload)
+            return {"pair": [coqeval.float_key(float(other_now)), coqeval.float_key(float(first_later)), coqeval.float_key(float(other_later))],
+                    "_stable": other_now == before[1] and first_later == before[0] and other_later == before[1]}
         shown, smin, smax, sent = vloop.run(_probe, c["tbl"], c["idx"], c["raw"], c["lo"], c["hi"], c["other"], c.get("via_device", False))
         out = {"display": coqeval.float_key(float(shown)), "min": coqeval.float_key(float(smin)),
                "max": coqeval.float_key(float(smax)), "sent": sent}
@@ -114,6 +174,24 @@ class C17(Prop):
         return out
 
     def model_many(self, cases):
+        pairs = [c for c in cases if c["kind"].startswith("pair:")]
+        if pairs:
+            rest = [c for c in cases if not c["kind"].startswith("pair:")]
+            r_rest = iter(self.model_many(rest)) if rest else iter([])
+            ex = []
+            for c in pairs:
+                ex += [f"fe_display {c['tbl']} {c['idx2']} {c['raw']}", f"fe_display {c['tbl']} {c['idx']} {c['raw']}"]
+            d = coqeval.eval_many(ex, "C17p", chunk=900)
+            it = iter(range(len(pairs)))
+            out = []
+            for c in cases:
+                if c["kind"].startswith("pair:"):
+                    k = next(it)
+                    dj, di = d[2 * k], d[2 * k + 1]
+                    out.append({"pair": [dj[1:], di[1:], dj[1:]]} if dj[0] and di[0] else {"error": "model:None"})
+                else:
+                    out.append(next(r_rest))
+            return out
         ex = []
         for c in cases:
             ex.append(f"fe_display {c['tbl']} {c['idx']} {c['raw']}")
@@ -150,6 +228,11 @@ class C17(Prop):
         # ... and the displayed form of a raw value is accepted exactly when the raw value lies within the held raw bounds
         out = []
         for c, b in zip(cases, behaviours):
+            if c["kind"].startswith("pair:"):
+                # what a parameter displays for a reported raw value depends on that report alone: not on a write to another
+                # parameter reported with the same bytes, nor on an earlier write to itself
+                out.append(bool(b.get("_stable")))
+                continue
             ok = b["sent"] == [c["raw"]]
             if "acc" in c:
                 w, blo, bhi, _ = c["acc"]
